@@ -620,8 +620,8 @@ impl Simplifier {
                 };
 
                 let original = interned::infix(left.clone(), operator, right.clone());
-                let bc = self.simplify(interned::infix(b.clone(), operator, right), limit - 1);
-                let new = self.simplify(interned::infix(a.clone(), rhs_operator, bc), limit - 1);
+                let bc = self.simplify(interned::infix(b.clone(), rhs_operator, right), limit - 1);
+                let new = self.simplify(interned::infix(a.clone(), operator, bc), limit - 1);
                 self.smaller(original, new)
             }
 
